@@ -151,6 +151,18 @@ def lean_term_expr(name: str, c: dict) -> str | None:
     if name in ("convolution", "conv2d"):
         return (f"{P}conv.term {lshape(c['shape'])} {lshape(c['w'])} {lil(c['st'])} {lil(c['pad'])} {lil(c['dil'])} "
                 f"{lb(c['tr'])} {lints(c['op'])} {c['g']}")
+    if name == "gather":
+        return f"{P}gather.term {r} {len(c['idx_shape'])} {li(c['dim'])}"
+    if name == "repeat_interleave":
+        return f"{P}repeat_interleave.term {r} {li(c['reps'])} {lopt(c['dim'])}"
+    if name == "select_scatter":
+        return f"{P}select_scatter.term {li(c['dim'])} {li(c['index'])}"
+    if name == "slice_scatter":
+        return f"{P}slice_scatter.term {r} {li(c['dim'])} {lopt(c['start'])} {lopt(c['end'])} {li(c['step'])}"
+    if name.startswith("atleast_"):
+        return f"{P}atleast.term {name[8]} {r}"
+    if name == "topk":
+        return f"{P}topk.term {li(c['k'])} {li(c['dim'])} {lb(c['largest'])} {lb(c['sorted'])}"
     if name == "unfold":
         return f"{P}unfold_.term {r} {li(c['dim'])} {li(c['size'])} {li(c['step'])}"
     if name.startswith("upsample"):
@@ -234,7 +246,7 @@ def regenerate() -> dict:
     names = []
     for k, ch in enumerate(chunks):
         body = ["import OV.Model.C08View", "import OV.Model.C08Slice", "import OV.Model.C08Repl", "import OV.Model.C08Reduce",
-                "import OV.Model.C08IntArith", "import OV.Model.C08Creation", "import OV.Model.C08Attr",
+                "import OV.Model.C08IntArith", "import OV.Model.C08Creation", "import OV.Model.C08Attr", "import OV.Model.C08Misc",
                 "/-! GENERATED by harness/extract_torchlib.py from /repo's working tree — do not edit. -/",
                 "namespace OV.Gen.C08Trace", "",
                 f"/-- (model term, term emitted by the real torch_lib function) — chunk {k}. -/",
